@@ -568,6 +568,7 @@ class ReadPathRun:
                     break
                 if self.closed_kind is not None and guard > 40:
                     break
+                self._arrive_all(self.csock)      # whatever is still in flight has arrived by now
                 if self.do_read() == "lost":
                     lost = True
             if self.closed_kind is not None and not lost and not res.violations:
